@@ -33,7 +33,7 @@ theorem Good.of_restore {T : Table} {asm : Asm} {a b : Nat} {inner : Res} {P : P
       exact ⟨Post.refl _ _, fun h => by simp at h⟩
 
 section
-variable {T : Table} {μ : Nat → Nat} (hT : ChildLt T μ) {rec : Rec} {asm : Asm} {st : List Nat} {a b : Nat}
+variable {T : Table} {μ : Nat → Nat} (hT : ChildLt T μ) {rec : Rec} {asm : Asm} {st : Stk} {a b : Nat}
   (ha : FO T a) (hb : FO T b) (hrec : RecGood T μ rec (μ a + μ b)) (hinv : Inv T μ asm (μ a + μ b + 1))
 include hT ha hb hrec hinv
 
@@ -43,7 +43,7 @@ theorem unionLeft_good {vs : List Nat} (hta : T.types[a]? = some (.union vs)) :
   refine Good.of_restore (P := ∀ v ∈ vs, Valid T v b) ?_ (Valid.union_left hta)
   refine allS_good T (m := μ a + μ b) vs (fun v hv s hs => ?_) _ hinv.cons
   have hlt : μ v < μ a := hT hta ha v (by simpa [Ty.children] using hv)
-  exact hrec s st v b (ha.union hta v hv) hb (by omega) (hs.mono (by omega))
+  exact hrec s _ v b (ha.union hta v hv) hb (by omega) (hs.mono (by omega))
 
 theorem unionRight_good {vs : List Nat} (htb : T.types[b]? = some (.union vs)) :
     Good T (unionRight Variant.current rec asm st a b vs) asm (Valid T a b) := by
@@ -55,12 +55,13 @@ theorem unionRight_good {vs : List Nat} (htb : T.types[b]? = some (.union vs)) :
 
 theorem tupleTuple_good {i1 i2 : Nat} (hta : T.types[a]? = some (.tuple i1))
     (htb : T.types[b]? = some (.tuple i2)) :
-    Good T (tupleTuple T rec asm st i1 i2) asm (Valid T a b) := by
+    Good T (tupleTuple Variant.current T .all rec asm st i1 i2) asm (Valid T a b) := by
   obtain ⟨info1, h1, hf1⟩ := ha.tuple hta
   obtain ⟨info2, h2, hf2⟩ := hb.tuple htb
   unfold tupleTuple
   split
   · rename_i heq
+    obtain ⟨heq, _⟩ := heq
     subst heq
     refine Good.const_true ?_
     rw [h1] at h2; cases h2
@@ -165,7 +166,7 @@ theorem Valid.of_same_ty {T : Table} {a b : Nat} {ty : Ty} (ha : FO T a)
 /-- one unfolding of the relation is good on a first-order pair if the recursive call is good on
 all first-order pairs with a smaller id sum -/
 theorem relStep_good {T : Table} {μ : Nat → Nat} (hT : ChildLt T μ) {rec : Rec} {asm : Asm}
-    {st : List Nat} {a b : Nat}
+    {st : Stk} {a b : Nat}
     {ta tb : Ty} (ha : FO T a) (hb : FO T b) (hta : T.types[a]? = some ta)
     (htb : T.types[b]? = some tb) (hrec : RecGood T μ rec (μ a + μ b))
     (hinv : Inv T μ asm (μ a + μ b + 1)) :
@@ -224,6 +225,7 @@ theorem checkRel_good {T : Table} {μ : Nat → Nat} (hT : ChildLt T μ) :
     unfold checkRel checkRelV
     split
     · rename_i heq
+      obtain ⟨heq, _⟩ := heq
       subst heq
       exact Good.const_true (Valid.refl_fo hx)
     · split
